@@ -118,7 +118,7 @@ func genC03(x *Ctx) *c03Scen {
 			}
 			if depth > 0 && sc.Router == "curly" && tp.Chance(150) {
 				// custom verb on the last segment (CurlyRouter only): /jobs/{id}:run next to /jobs/all:run
-				segs[depth-1] = []string{"{v}:run", "a:run", "b:run", "{v}:stop"}[tp.G(4)]
+				segs[depth-1] = []string{"{v}:run", "a:run", "b:run", "{v}:stop", "ab:abort", "{v}:abort"}[tp.G(6)]
 			}
 			if depth > 0 && tp.Chance(120) {
 				segs[depth-1] = "{rest:*}"
@@ -235,6 +235,11 @@ func c03Probes(sc *c03Scen) []Probe {
 // ---- the reference matcher for exactly this generator grammar (oracle B) -------------------------
 
 func c03SegMatch(tseg, useg string) bool {
+	if i := strings.Index(tseg, "}:"); strings.HasPrefix(tseg, "{") && i > 0 {
+		// a variable followed by a custom verb: the verb, with something in front of it
+		verb := tseg[i+1:]
+		return strings.HasSuffix(useg, verb) && len(useg) > len(verb)
+	}
 	switch {
 	case strings.HasPrefix(tseg, "{") && strings.Contains(tseg, ":[0-9]+"):
 		return regexp.MustCompile(`[0-9]+`).MatchString(useg)
@@ -447,12 +452,9 @@ func c03CheckDominance(x *Ctx, sc *c03Scen, w *World, p Probe, got Outcome) {
 		return true
 	}
 	selFull := FullPath(selSvc.Root, sel.Path)
-	if strings.Contains(selFull, ":run") || strings.Contains(selFull, ":stop") {
-		return // the reference matcher does not model custom verbs; order independence (oracle A) still covers them
-	}
 	for _, sp := range sc.Svcs {
 		for _, r := range sp.Routes {
-			if r.ID == selID || r.Method != "GET" || strings.Contains(r.Path, ":run") || strings.Contains(r.Path, ":stop") {
+			if r.ID == selID || r.Method != "GET" {
 				continue
 			}
 			full := FullPath(sp.Root, r.Path)
